@@ -29,6 +29,8 @@ def main(argv):
         facts = extract.run()
         mod = importlib.import_module(pid.lower())
         out = Outcome(pid, tier, seed, level=getattr(mod, "LEVEL", "proof"))
+        if hasattr(mod, "pre_build"):
+            mod.pre_build(facts)
         out.proof = check_proofs(pid, mod.THEOREMS, tier)
         drv = Driver()
         try:
